@@ -61,60 +61,104 @@ Lemma read_edges_pos_rejected file f off pos cnt : (cnt <= pos)%Z -> read_edges 
 Proof. intros H. cbn [read_edges]. destruct (Z.leb_spec cnt pos); [reflexivity|lia]. Qed.
 
 (* ---------------------------------------------------------------- parent hashes *)
-Lemma hashes_of_ok file fi : forall idxs l, hashes_of file fi idxs = Ok l ->
-  Forall (fun i => i < ncommits fi) idxs /\ List.length l = List.length idxs /\ Forall (fun h => List.length h = 20%nat) l.
+Lemma hash_local_ok file fi i h : hash_local file fi i = Ok h -> i < ncommits fi /\ List.length h = 20%nat.
+Proof.
+  unfold hash_local. destruct (N.leb_spec (ncommits fi) i); [discriminate|].
+  destruct (slice file _ 20) as [b|] eqn:S1; [|discriminate]. intros [= <-]. apply slice_some in S1. split; [assumption|lia].
+Qed.
+
+(* split graphs: positions below [min] are delegated to [below] (the parent layers), the others are
+   local positions i - min, which must be below the number of commits of this file *)
+Lemma hashes_of_ok below min file fi : forall idxs l, hashes_of below min file fi idxs = Ok l ->
+  Forall (fun i => i < min + ncommits fi) idxs /\ List.length l = List.length idxs /\
+  ((forall i h, below i = Ok h -> List.length h = 20%nat) -> Forall (fun h => List.length h = 20%nat) l).
 Proof.
   induction idxs as [|i r IH]; intros l E; cbn [hashes_of] in E.
   - injection E as <-. repeat split; constructor.
-  - destruct (N.leb_spec (ncommits fi) i); [discriminate|].
-    destruct (slice file _ 20) as [h|] eqn:S1; [|discriminate]. apply slice_some in S1.
-    destruct (hashes_of file fi r) as [l'|] eqn:E'; [|discriminate]. injection E as <-.
-    destruct (IH _ eq_refl) as (A & B & C). repeat split.
-    + constructor; assumption.
-    + cbn [List.length]. lia.
-    + constructor; [lia|assumption].
+  - destruct (N.ltb_spec i min) as [Lt|Ge].
+    + destruct (below i) as [h|] eqn:B; [|discriminate].
+      destruct (hashes_of below min file fi r) as [l'|] eqn:E'; [|discriminate]. injection E as <-.
+      destruct (IH _ eq_refl) as (A & B' & C). repeat split.
+      * constructor; [lia|assumption].
+      * cbn [List.length]. lia.
+      * intros Hb. constructor; [eapply Hb; eassumption|apply C, Hb].
+    + destruct (hash_local file fi (i - min)) as [h|] eqn:Hl; [|discriminate]. apply hash_local_ok in Hl.
+      destruct (hashes_of below min file fi r) as [l'|] eqn:E'; [|discriminate]. injection E as <-.
+      destruct (IH _ eq_refl) as (A & B' & C). repeat split.
+      * constructor; [lia|assumption].
+      * cbn [List.length]. lia.
+      * intros Hb. constructor; [apply Hl|apply C, Hb].
 Qed.
 
-(* a parent index equal to (or above) the number of commits is an error, whatever else the list holds *)
-Lemma hashes_of_index_rejected file fi : forall idxs i, In i idxs -> ncommits fi <= i -> exists e, hashes_of file fi idxs = Er e.
+(* a parent index equal to (or above) min + the number of commits is an error, whatever else the list holds *)
+Lemma hashes_of_index_rejected below min file fi : forall idxs i, In i idxs -> min + ncommits fi <= i ->
+  exists e, hashes_of below min file fi idxs = Er e.
 Proof.
   induction idxs as [|j r IH]; intros i Hin Hge; [destruct Hin|]. cbn [hashes_of].
-  destruct (N.leb_spec (ncommits fi) j); [eexists; reflexivity|].
-  destruct (slice file _ 20); [|eexists; reflexivity].
-  destruct Hin as [->|Hin]; [lia|]. destruct (IH i Hin Hge) as [e ->]. eexists; reflexivity.
+  destruct (if j <? min then below j else hash_local file fi (j - min)) as [h|e] eqn:Hj; [|eexists; reflexivity].
+  destruct Hin as [->|Hin].
+  - exfalso. destruct (N.ltb_spec i min); [lia|]. apply hash_local_ok in Hj. lia.
+  - destruct (IH i Hin Hge) as [e ->]. eexists; reflexivity.
 Qed.
 
-(* ---------------------------------------------------------------- commit data *)
-Lemma commit_index_rejected file fi idx : ncommits fi <= idx -> get_commit_data file fi idx = Er ENotFound.
-Proof. intros H. unfold get_commit_data. destruct (N.leb_spec (ncommits fi) idx); [reflexivity|lia]. Qed.
+(* a parent index below [min] is answered by the parent layers, never read from this file *)
+Lemma hashes_of_delegated below min file fi i r : i < min ->
+  hashes_of below min file fi (i :: r) =
+  match below i with
+  | Er e => Er e
+  | Ok h => match hashes_of below min file fi r with Ok l => Ok (h :: l) | Er e => Er e end
+  end.
+Proof. intros L. cbn [hashes_of]. destruct (N.ltb_spec i min); [reflexivity|lia]. Qed.
 
-(* what a successful GetCommitDataByIndex is made of *)
+(* ---------------------------------------------------------------- commit data *)
+Lemma commit_index_rejected_in below min file fi idx : ncommits fi <= idx -> get_commit_data_in below min file fi idx = Er ENotFound.
+Proof. intros H. unfold get_commit_data_in. destruct (N.leb_spec (ncommits fi) idx); [reflexivity|lia]. Qed.
+
+Lemma commit_index_rejected file fi idx : ncommits fi <= idx -> get_commit_data file fi idx = Er ENotFound.
+Proof. apply commit_index_rejected_in. Qed.
+
+Lemma parent_indexes_bound file fi p1 p2 l : (8 <= Z.of_nat (List.length file))%Z ->
+  parent_indexes file fi p1 p2 = Ok l -> (4 * Z.of_nat (List.length l) <= Z.of_nat (List.length file) + 4)%Z.
+Proof.
+  intros H8. unfold parent_indexes.
+  destruct (N.land p2 parentOctopusUsed =? parentOctopusUsed).
+  - cbv zeta. destruct (Z.leb_spec (Z.quot (off_of (f_size fi) 5) 4) (Z.of_N (N.land p2 parentOctopusMask))); [discriminate|].
+    destruct (read_edges file _ _ _ _) as [l'|] eqn:E; [|discriminate]. intros [= <-].
+    apply read_edges_bound in E. cbn [List.length]. clear - E. lia.
+  - destruct (negb (p2 =? parentNone)); [intros [= <-]; cbn [List.length]; lia|].
+    destruct (negb (p1 =? parentNone)); intros [= <-]; cbn [List.length]; lia.
+Qed.
+
+(* what a successful GetCommitDataByIndex of one layer is made of *)
+Lemma commit_data_in_ok below min file fi idx d : get_commit_data_in below min file fi idx = Ok d ->
+  idx < ncommits fi /\ List.length (d_tree d) = 20%nat /\
+  Forall (fun i => i < min + ncommits fi) (d_pidx d) /\ List.length (d_phash d) = List.length (d_pidx d) /\
+  ((forall i h, below i = Ok h -> List.length h = 20%nat) -> Forall (fun h => List.length h = 20%nat) (d_phash d)) /\
+  (4 * Z.of_nat (List.length (d_pidx d)) <= Z.of_nat (List.length file) + 4)%Z.
+Proof.
+  unfold get_commit_data_in. destruct (N.leb_spec (ncommits fi) idx); [discriminate|]. cbv zeta.
+  destruct (slice file _ 20) as [tree|] eqn:S1; [|discriminate]. apply slice_some in S1.
+  destruct (rd file _ 4) as [p1|] eqn:R1; [|discriminate].
+  destruct (rd file (_ + 24)%Z 4) as [p2|] eqn:R2; [|discriminate].
+  destruct (rd file (_ + 28)%Z 8) as [gt|] eqn:R3; [|discriminate].
+  destruct (parent_indexes file fi p1 p2) as [pidx|] eqn:P; [|discriminate].
+  destruct (hashes_of below min file fi pidx) as [ph|] eqn:Hh; [|discriminate]. apply hashes_of_ok in Hh.
+  generalize (N.shiftr gt 34) (N.land gt 17179869183). intros gg tt.
+  destruct (gen2_of file fi idx tt) as [g2|]; [|discriminate].
+  intros E. injection E as E. subst d. cbn [d_tree d_pidx d_phash]. destruct Hh as (A & B & C).
+  destruct S1 as (S0 & S2 & S1).
+  split; [assumption|]. split; [exact S1|]. split; [exact A|]. split; [exact B|]. split; [exact C|].
+  apply parent_indexes_bound in P; [exact P|]. clear - S0 S2. lia.
+Qed.
+
 Lemma commit_data_ok file fi idx d : get_commit_data file fi idx = Ok d ->
   idx < ncommits fi /\ List.length (d_tree d) = 20%nat /\
   Forall (fun i => i < ncommits fi) (d_pidx d) /\ List.length (d_phash d) = List.length (d_pidx d) /\
   Forall (fun h => List.length h = 20%nat) (d_phash d) /\
   (4 * Z.of_nat (List.length (d_pidx d)) <= Z.of_nat (List.length file) + 4)%Z.
 Proof.
-  unfold get_commit_data. destruct (N.leb_spec (ncommits fi) idx); [discriminate|]. cbv zeta.
-  destruct (slice file _ 20) as [tree|] eqn:S1; [|discriminate]. apply slice_some in S1.
-  destruct (rd file _ 4) as [p1|] eqn:R1; [|discriminate].
-  destruct (rd file (_ + 24)%Z 4) as [p2|] eqn:R2; [|discriminate].
-  destruct (rd file (_ + 28)%Z 8) as [gt|] eqn:R3; [|discriminate].
-  match goal with |- match ?pi with Ok _ => _ | Er _ => _ end = _ -> _ => destruct pi as [pidx|] eqn:P end; [|discriminate].
-  destruct (hashes_of file fi pidx) as [ph|] eqn:Hh; [|discriminate]. apply hashes_of_ok in Hh.
-  match goal with |- match ?g with Ok _ => _ | Er _ => _ end = _ -> _ => destruct g as [g2|] end; [|discriminate].
-  generalize (N.shiftr gt 34) (N.land gt 17179869183). intros gg tt E. injection E as E. subst d.
-  cbn [d_tree d_pidx d_phash]. destruct Hh as (A & B & C).
-  destruct S1 as (_ & _ & S1).
-  split; [assumption|]. split; [exact S1|]. split; [exact A|]. split; [exact B|]. split; [exact C|].
-  (* the size of the parent list *)
-  clear - P R1. apply rd_ok in R1.
-  destruct (N.land p2 parentOctopusUsed =? parentOctopusUsed).
-  - destruct (Z.leb_spec (Z.quot (off_of (f_size fi) 5) 4) (Z.of_N (N.land p2 parentOctopusMask))); [discriminate|].
-    destruct (read_edges file _ _ _ _) as [l|] eqn:E; [|discriminate]. injection P as <-.
-    apply read_edges_bound in E. cbn [List.length]. clear - E. lia.
-  - destruct (negb (p2 =? parentNone)); [injection P as <-; cbn [List.length]; clear - R1; lia|].
-    destruct (negb (p1 =? parentNone)); injection P as <-; cbn [List.length]; clear - R1; lia.
+  intros E. apply commit_data_in_ok in E. destruct E as (A & B & C & D & F & G).
+  repeat split; try assumption. apply F. intros i h; discriminate.
 Qed.
 
 (* the octopus walk of get_commit_data with any larger fuel is the same walk *)
@@ -202,15 +246,24 @@ Proof.
 Qed.
 
 Theorem c53_graph_no_oob :
-  (forall file fi idx, ncommits fi <= idx -> get_commit_data file fi idx = Er ENotFound) /\
-  (forall file fi idxs i, In i idxs -> ncommits fi <= i -> exists e, hashes_of file fi idxs = Er e) /\
+  (forall below min file fi idx, ncommits fi <= idx -> get_commit_data_in below min file fi idx = Er ENotFound) /\
+  (forall below min file fi idxs i, In i idxs -> min + ncommits fi <= i -> exists e, hashes_of below min file fi idxs = Er e) /\
+  (forall below min file fi i r, i < min ->
+     hashes_of below min file fi (i :: r) =
+     match below i with
+     | Er e => Er e
+     | Ok h => match hashes_of below min file fi r with Ok l => Ok (h :: l) | Er e => Er e end
+     end) /\
   (forall file f off pos cnt, (cnt <= pos)%Z -> read_edges file (S f) off pos cnt = Er EMalformed) /\
-  (forall file fi idx d, get_commit_data file fi idx = Ok d ->
+  (forall below min file fi idx d, get_commit_data_in below min file fi idx = Ok d ->
      idx < ncommits fi /\ List.length (d_tree d) = 20%nat /\
-     Forall (fun i => i < ncommits fi) (d_pidx d) /\ List.length (d_phash d) = List.length (d_pidx d) /\
-     Forall (fun h => List.length h = 20%nat) (d_phash d) /\
-     (4 * Z.of_nat (List.length (d_pidx d)) <= Z.of_nat (List.length file) + 4)%Z).
+     Forall (fun i => i < min + ncommits fi) (d_pidx d) /\ List.length (d_phash d) = List.length (d_pidx d) /\
+     ((forall i h, below i = Ok h -> List.length h = 20%nat) -> Forall (fun h => List.length h = 20%nat) (d_phash d)) /\
+     (4 * Z.of_nat (List.length (d_pidx d)) <= Z.of_nat (List.length file) + 4)%Z) /\
+  (forall file fi idx d, get_commit_data file fi idx = Ok d ->
+     idx < ncommits fi /\ Forall (fun i => i < ncommits fi) (d_pidx d) /\ Forall (fun h => List.length h = 20%nat) (d_phash d)).
 Proof.
-  repeat split; try (eapply commit_data_ok; eassumption).
-  - apply commit_index_rejected. - apply hashes_of_index_rejected. - apply read_edges_pos_rejected.
+  split; [exact commit_index_rejected_in|]. split; [exact hashes_of_index_rejected|]. split; [exact hashes_of_delegated|].
+  split; [exact read_edges_pos_rejected|]. split; [exact commit_data_in_ok|].
+  intros file fi idx d E. apply commit_data_ok in E. destruct E as (A & _ & C & _ & F & _). repeat split; assumption.
 Qed.
